@@ -412,7 +412,7 @@ func TestProp(t *testing.T) {
 			runGrid(s, run, g, seeds)
 		})
 
-	run.Check("common", 240000, 2000000,
+	run.Check("common", 320000, 2000000,
 		"RollCommon on random tuples: times up to 2000, sides up to 2^62 (times*sides < 2^62), keep/drop counts 1..times+1, min/max within 1..sides+1 with min <= max, random/min/max roll mode, random PCG seed; same oracle as grid; "+ntRule,
 		func(t *rapid.T, s *rt.Section) {
 			c := drawCommon(t)
@@ -500,7 +500,7 @@ func TestProp(t *testing.T) {
 			s.Report(t, f)
 		})
 
-	run.Check("vm", 40000, 400000,
+	run.Check("vm", 80000, 400000,
 		"expressions of 1..4 items (dice terms of every family, integer literals) joined by + - *, run on a seeded VM; every dice term's DetailSpans entry is located by its byte span, its Tag/Ret/Text judged by the same rule oracles with parameters evaluated from the source (literals, parenthesised sums, nested dice terms read from their own spans, chains whose count is the previous term's value, 优势/劣势, default sides, upper-case letters), and vm.Ret must equal the arithmetic over the term values; "+ntRule,
 		func(t *rapid.T, s *rt.Section) {
 			c := drawVMCase(t, s)
@@ -521,7 +521,7 @@ func TestProp(t *testing.T) {
 			s.Report(t, f)
 		})
 
-	run.Check("illegal", 16000, 150000,
+	run.Check("illegal", 24000, 150000,
 		"a legal expression in which one parameter of one dice term is replaced by an illegal value (times/sides/keep-drop count <= 0 or not an integer; WoD/DC pool outside 1..20000, add line 1 or negative (DC also 0), sides < 1, threshold < 1, any of them not an integer; CoC dice count negative or not an integer), written as literal, parenthesised or computed operand; Run must return an error (no value, no panic); every case is non-trivial; distinct by source",
 		func(t *rapid.T, s *rt.Section) {
 			c := drawIllegalCase(t, s)
